@@ -418,6 +418,9 @@ struct Plan {
     ensure_moved_ann: bool,
     /// `refs/heads/main` is also mapped onto a destination that is a dangling symbolic ref
     dangling_dst: bool,
+    /// the repository that is served is itself a shallow clone (of this depth) of the history;
+    /// the client starts empty and asks for no depth
+    shallow_server: Option<u32>,
 }
 
 const DANGLE: &str = "refs/remotes/origin/dangle";
@@ -438,6 +441,23 @@ const SPEC_SETS: &[&[&str]] = &[
 ];
 
 fn random_plan(r: &mut Rng) -> Plan {
+    if r.chance(1, 7) {
+        return Plan {
+            bare: r.chance(1, 2),
+            specs: r.pick(&[&["+refs/heads/*:refs/remotes/origin/*"][..], &["refs/heads/*:refs/remotes/origin/*", "refs/tags/*:refs/tags/*"][..]]).to_vec(),
+            tag_opt: None,
+            protocol: r.below(3) as u8,
+            algo: *r.pick(&["consecutive", "skipping", "noop"]),
+            initial_depth: None,
+            fetch_depth: None,
+            deepen: false,
+            local_tweaks: false,
+            ensure_ff: r.chance(1, 2),
+            ensure_moved_ann: false,
+            dangling_dst: false,
+            shallow_server: Some(1 + r.below(3) as u32),
+        };
+    }
     let shallow = r.chance(1, 4);
     let specs = r.pick(SPEC_SETS).to_vec();
     // git refuses the whole fetch if a destination is the checked-out branch: mostly use a bare client then
@@ -459,6 +479,7 @@ fn random_plan(r: &mut Rng) -> Plan {
         ensure_ff: r.chance(1, 3),
         ensure_moved_ann: r.chance(1, 8),
         dangling_dst: r.chance(1, 10),
+        shallow_server: None,
     }
 }
 
@@ -476,6 +497,7 @@ fn corpus_plans() -> Vec<Plan> {
         ensure_ff: false,
         ensure_moved_ann: false,
         dangling_dst: false,
+        shallow_server: None,
     };
     vec![
         base.clone(),
@@ -494,6 +516,9 @@ fn corpus_plans() -> Vec<Plan> {
         Plan { algo: "skipping", ensure_ff: true, ..base.clone() },
         Plan { tag_opt: Some("--tags"), protocol: 1, ..base.clone() },
         Plan { dangling_dst: true, ensure_ff: true, ..base.clone() },
+        Plan { shallow_server: Some(1), protocol: 1, ensure_ff: true, ..base.clone() },
+        Plan { shallow_server: Some(2), protocol: 0, bare: true, algo: "skipping", ..base.clone() },
+        Plan { shallow_server: Some(2), protocol: 2, ensure_ff: true, ..base.clone() },
         Plan { dangling_dst: true, protocol: 1, specs: vec!["refs/heads/*:refs/remotes/origin/*"], ..base.clone() },
     ]
 }
@@ -529,7 +554,7 @@ fn gitdir_of(dir: &Path, bare: bool) -> PathBuf {
     }
 }
 
-fn setup_client(r: &mut Rng, world: &mut World, srv: &Server, dir: &Path, plan: &Plan, rep: &mut Report) {
+fn setup_client(r: &mut Rng, world: &mut World, srv: &Server, url: &Path, dir: &Path, plan: &Plan, rep: &mut Report) {
     std::fs::create_dir_all(dir).unwrap();
     if plan.bare {
         git_ok(dir, &["init", "-q", "--bare", "."], None);
@@ -540,7 +565,7 @@ fn setup_client(r: &mut Rng, world: &mut World, srv: &Server, dir: &Path, plan: 
     cfg.push_str("[user]\n\tname = Cli Ent\n\temail = client@example.com\n");
     cfg.push_str(&format!("[protocol]\n\tversion = {}\n", plan.protocol));
     cfg.push_str(&format!("[fetch]\n\tnegotiationAlgorithm = {}\n", plan.algo));
-    cfg.push_str(&format!("[remote \"origin\"]\n\turl = {}\n", srv.dir.display()));
+    cfg.push_str(&format!("[remote \"origin\"]\n\turl = {}\n", url.display()));
     for s in &plan.specs {
         cfg.push_str(&format!("\tfetch = {s}\n"));
     }
@@ -557,6 +582,10 @@ fn setup_client(r: &mut Rng, world: &mut World, srv: &Server, dir: &Path, plan: 
         args.push(format!("--depth={d}"));
     }
     let argrefs: Vec<&str> = args.iter().map(String::as_str).collect();
+    if plan.shallow_server.is_some() {
+        // the client starts empty: everything, incl. the server's shallow boundary, comes with the fetch under test
+        return;
+    }
     let o = git(dir, &argrefs, None);
     if !o.ok && o.code != 1 {
         panic!("initial git fetch failed: {}", String::from_utf8_lossy(&o.stderr));
@@ -755,8 +784,19 @@ fn scenario(rep: &mut Report, scratch: &Scratch, seed: u64, idx: u64, plan: Opti
     }
     let gix_dir = root.join("client-gix");
     let git_dir = root.join("client-git");
-    setup_client(&mut r, &mut world, &srv, &gix_dir, &plan, rep);
-    phase2(&mut r, &mut world, &mut srv, rep, plan.ensure_ff, plan.ensure_moved_ann);
+    if let Some(depth) = plan.shallow_server {
+        // the history moves on first; what is served is a shallow clone of the result
+        phase2(&mut r, &mut world, &mut srv, rep, plan.ensure_ff, plan.ensure_moved_ann);
+        let served = root.join("served.git");
+        let url = format!("file://{}", srv.dir.display());
+        git_ok(&root, &["clone", "-q", "--bare", "--no-single-branch", &format!("--depth={depth}"), &url, served.to_str().unwrap()], None);
+        rep.bucket("server:is-a-shallow-clone");
+        setup_client(&mut r, &mut world, &srv, &served, &gix_dir, &plan, rep);
+    } else {
+        let url = srv.dir.clone();
+        setup_client(&mut r, &mut world, &srv, &url, &gix_dir, &plan, rep);
+        phase2(&mut r, &mut world, &mut srv, rep, plan.ensure_ff, plan.ensure_moved_ann);
+    }
     copy_dir(&gix_dir, &git_dir);
     let before = refs_of(&gix_dir);
     let head_target = if plan.bare {
@@ -767,8 +807,8 @@ fn scenario(rep: &mut Report, scratch: &Scratch, seed: u64, idx: u64, plan: Opti
     };
     let replay_op = format!("scenario {seed} {idx}");
     let desc = format!(
-        "specs={:?} tagopt={:?} v{} algo={} bare={} depth={:?}->{:?}{} tweaks={}",
-        plan.specs, plan.tag_opt, plan.protocol, plan.algo, plan.bare, plan.initial_depth, plan.fetch_depth, if plan.deepen { "(deepen)" } else { "" }, plan.local_tweaks
+        "specs={:?} tagopt={:?} v{} algo={} bare={} depth={:?}->{:?}{} tweaks={} shallow-server={:?}",
+        plan.specs, plan.tag_opt, plan.protocol, plan.algo, plan.bare, plan.initial_depth, plan.fetch_depth, if plan.deepen { "(deepen)" } else { "" }, plan.local_tweaks, plan.shallow_server
     );
     rep.bucket(&format!("protocol:v{}", plan.protocol));
     rep.bucket(&format!("algo:{}", plan.algo));
@@ -777,6 +817,11 @@ fn scenario(rep: &mut Report, scratch: &Scratch, seed: u64, idx: u64, plan: Opti
 
     // ---- git fetch into the twin ---------------------------------------------------------------
     let mut args = vec!["fetch".to_string(), "-v".to_string(), "origin".to_string()];
+    if plan.shallow_server.is_some() {
+        // a plain `git fetch` rejects refs that need new shallow roots ("shallow update not allowed");
+        // gitoxide accepts them unless clone.rejectShallow is set, which is what --update-shallow asks git to do
+        args.push("--update-shallow".to_string());
+    }
     if let Some(d) = plan.fetch_depth {
         args.push(if plan.deepen { format!("--deepen={d}") } else { format!("--depth={d}") });
     }
